@@ -15,7 +15,7 @@ Open Scope Z_scope.
 
 #[export] Instance eta_world : Settable _ := settable! mkWorld
   <w_swaps_allowed; w_liquid_enabled; w_bitcoin_enabled; w_min_amount_msat; w_peer_allowed;
-   w_peer_suspicious; w_wallet_asset; w_wallet_network; w_csv_height; w_premium; w_own_pubkey; w_hashes;
+   w_peer_suspicious; w_wallet_asset; w_wallet_network; w_premium; w_own_pubkey; w_hashes;
    q_height; q_send; q_store; q_pay; q_recover_pay; q_payfee; q_mkinvoice; q_fee_est; q_balance;
    q_spendable; q_probe; q_create_opening; q_spend; q_script; q_validate; q_addsender;
    q_addsusp; q_preimage; q_blind; w_overrun>.
@@ -173,7 +173,7 @@ Definition spend (k : spend_kind) (d : swap_data) (on_err : string) : M (string 
 (* the retry loop of ValidateTxAndPayClaimInvoiceAction: one iteration per ticker
    tick (which first polls the height); the context timeout fires when the world
    records no further tick *)
-Fixpoint pay_loop (n : nat) (pol : tl_policy) (payreq : string) (d : swap_data) : M (string * swap_data) :=
+Fixpoint pay_loop (n : nat) (csvh : Z) (pol : tl_policy) (payreq : string) (d : swap_data) : M (string * swap_data) :=
   match n with
   | O => fail d
   | S n' =>
@@ -183,14 +183,13 @@ Fixpoint pay_loop (n : nat) (pol : tl_policy) (payreq : string) (d : swap_data) 
     match h with
     | None => fail d
     | Some now =>
-      csvh <- ask w_csv_height ;;
       if String.eqb (get_chain d) btc_chain && (csvh / 2 <? u32_sub now (d_start_height d)) then fail d
       else if String.eqb (get_chain d) lbtc_chain && negb (check_payment_window d now pol) then fail d
       else
         r <- pop q_pay (fun r w => w <| q_pay := r |>) None ;;
         emit (EPayClaim payreq (get_scid d) (p_max_total pol) now r) ;;;
         match r with
-        | None => pay_loop n' pol payreq d
+        | None => pay_loop n' csvh pol payreq d
         | Some pre => succeed (d <| d_claim_preimage := pre |>)
         end
     end
@@ -441,7 +440,7 @@ Definition act_await_tx_confirmation (d : swap_data) : M (string * swap_data) :=
         match get_claim_amount d with
         | None => panic d
         | Some claim =>
-          csvh <- ask w_csv_height ;;
+          let csvh := csv_height tc d in
           let invoice_ok :=
             if String.eqb (get_chain d) btc_chain
             then negb (csvh / 2 <? cltv) && (msat =? u64_mul claim 1000)
@@ -495,7 +494,7 @@ Definition act_validate_and_pay (d : swap_data) : M (string * swap_data) :=
             end
           else
             n <- ask (fun w => S (List.length (q_height w))) ;;
-            pay_loop n pol (ob_payreq o) d
+            pay_loop n (csv_height tc d) pol (ob_payreq o) d
         end
       end
     end
@@ -513,7 +512,7 @@ Definition act_set_starting_height (d : swap_data) : M (string * swap_data) :=
       | Some pol => if check_payment_window d now pol then ret (Ev_NoOp, d) else fail d
       end
     else
-      csvh <- ask w_csv_height ;;
+      let csvh := csv_height tc d in
       if d_start_height d =? 0 then ret (Ev_NoOp, d <| d_start_height := now |>)
       else if negb (now <? u32_add (d_start_height d) (csvh / 2)) then fail d
       else ret (Ev_NoOp, d)
